@@ -66,3 +66,27 @@ func TestC07RightHandSidesReadPreUpdateItem(t *testing.T) {
 		t.Fatalf("c = a read the already updated a: %q", got)
 	}
 }
+
+// C07: removing something that is not there is a no-op, also below the top level.
+func TestC07RemoveOfAbsentNestedPathIsNoop(t *testing.T) {
+	item := map[string]*types.Item{"h": s("k"), "m": {M: map[string]*types.Item{"k": s("x")}}, "l": {L: []*types.Item{s("a")}}}
+	for _, e := range []string{"REMOVE m.nokey.deeper", "REMOVE nosuch.k", "REMOVE l[5].k", "REMOVE m.nokey[0]"} {
+		if err := upd(t, item, e, nil); err != nil {
+			t.Errorf("%q: %v", e, err)
+		}
+	}
+	if len(item) != 3 || len(item["m"].M) != 1 || len(item["l"].L) != 1 {
+		t.Errorf("the item changed: %v", item)
+	}
+}
+
+// C07: DELETE of the last elements of a set removes the attribute (sets are never empty).
+func TestC07DeleteEmptiesSet(t *testing.T) {
+	item := map[string]*types.Item{"h": s("k"), "ss": {SS: []*string{types.ToString("a")}}}
+	if err := upd(t, item, "DELETE ss :v", map[string]*types.Item{":v": {SS: []*string{types.ToString("a")}}}); err != nil {
+		t.Fatal(err)
+	}
+	if v, ok := item["ss"]; ok {
+		t.Errorf("DELETE of the only element left an empty set behind: %#v", v.SS)
+	}
+}
